@@ -610,6 +610,7 @@ def random_grammars(seed, count, features=("pred", "label", "act"), depth=3):
         lower = ["Y", "Z"][: rnd.randint(1, 2)]
         null = {}
         labels = [0]
+        faults = [0]
 
         def gen(depth, refs):
             r = rnd.random()
@@ -652,6 +653,11 @@ def random_grammars(seed, count, features=("pred", "label", "act"), depth=3):
                 labels[0] += 1
                 return label("v%d" % labels[0], gen(depth - 1, refs))
             if kind == "act" and "act" in features:
+                if "fault" in features and faults[0] < 2 and rnd.random() < 0.7:
+                    faults[0] += 1
+                    if rnd.random() < 0.25:
+                        return seq(andcode(p_fault(faults[0] - 1)), gen(depth - 1, refs))
+                    return act(gen(depth - 1, refs), b_fault(faults[0] - 1))
                 return act(gen(depth - 1, refs), b_rec() if rnd.random() < 0.7 else b_text())
             return gen(depth - 1, refs)
 
@@ -677,8 +683,84 @@ def random_grammars(seed, count, features=("pred", "label", "act"), depth=3):
             extra_entries = ["", lower[0]]
         else:
             extra_entries = None
-        g = grammar("rnd%s%d_%d" % ("".join(f[0] for f in features if f in ("state", "throw")), seed, n), rules, tags=["random"])
+        g = grammar("rnd%s%d_%d" % ("".join(f[0] for f in features if f in ("state", "throw", "fault")), seed, n), rules, tags=["random"])
+        if "fault" in features:
+            if faults[0] == 0 or not uses_fault({"rules": rules}):
+                continue  # (a fault block drawn inside a discarded subtree does not count)
+            g["fault_slots"] = faults[0]
         if extra_entries:
             g["entries"] = extra_entries  # used by C09 / C04 (-alternate-entrypoints keeps the rule alive)
         out.append(g)
+    return out
+
+
+def random_classes(seed, count):
+    """Seeded random character classes over a pool of boundary runes (C15): ASCII case and
+    punctuation boundaries, DEL/0x80, runes whose case folding crosses the ASCII border."""
+    rnd = random.Random(seed * 7919 + 13)
+    pool = list("@AZ[`az{~09_kKsSiI") + ["\x00", "\x1f", "\x7f", "\x80", "\xb5", "\xdf", "\xe9", "\xc9", "İ", "ı", "ſ", "K", "ǅ", "Σ", "ς", "￿"]
+    ucls = ["L", "Lu", "Ll", "Lt", "Nd", "N", "P", "S", "Zs", "Latin", "Greek", "Cc"]
+    out = []
+    for n in range(count):
+        chars = "".join(rnd.sample(pool, rnd.randint(0, 3)))
+        ranges = []
+        for _ in range(rnd.randint(0, 2)):
+            a, b = rnd.choice(pool), rnd.choice(pool)
+            if a > b:
+                a, b = b, a
+            ranges.append((a, b))
+        classes = rnd.sample(ucls, rnd.choice([0, 0, 1, 2]))
+        if not chars and not ranges and not classes:
+            chars = rnd.choice(pool)
+        inv, ic = rnd.random() < 0.4, rnd.random() < 0.6
+        c = lambda: cls(chars=chars, ranges=ranges, classes=classes, inv=inv, i=ic)
+        out.append(grammar("krnd%d_%d" % (seed, n), [rule("S", act(seq(label("x", star(c())), label("y", opt(any_()))), b_rec("s")))], tags=["random"]))
+    return out
+
+
+def random_lr(seed, count):
+    """Seeded random left-recursive grammars of the shape the reference handles (C08):
+    E <- E t1 X1 {..} / E t2 X2? {..} / B1 / B2, entered through the leader, with the operators,
+    right operands and bases drawn at random; S wraps E in a random context."""
+    rnd = random.Random(seed * 104729 + 7)
+    out = []
+    ops = ["+", "-", "*", "!", "ab"]
+    for n in range(count):
+        def operand():
+            k = rnd.random()
+            if k < 0.4:
+                return ref("N")
+            if k < 0.6:
+                return cls(ranges=[("0", "1")])
+            if k < 0.8:
+                return seq(lit("("), ref("N"), lit(")"))
+            return opt(ref("N"))
+        alts = []
+        used = rnd.sample(ops, rnd.randint(1, 3))
+        for k, o in enumerate(used):
+            items = [label("l", ref("E")), lit(o)]
+            if rnd.random() < 0.8:
+                items.append(label("r", operand()))
+            if rnd.random() < 0.2:
+                items.insert(1, not_(lit("0")))
+            alts.append(act(seq(*items), b_rec("op%d" % k)))
+        bases = [ref("N")]
+        if rnd.random() < 0.5:
+            bases.append(act(lit("x"), b_const("X")))
+        if rnd.random() < 0.3:
+            bases.insert(0, act(seq(lit("("), label("i", ref("N")), lit(")")), b_rec("par")))
+        e_rule = rule("E", choice(*(alts + bases)), lr=True)
+        ctx = rnd.choice(["eof", "plain", "pred", "rep", "opt"])
+        if ctx == "eof":
+            s_body = seq(label("e", ref("E")), not_(any_()))
+        elif ctx == "plain":
+            s_body = label("e", ref("E"))
+        elif ctx == "pred":
+            s_body = seq(and_(ref("E")), label("e", ref("E")), label("rest", opt(any_())))
+        elif ctx == "rep":
+            s_body = seq(label("e", ref("E")), label("rest", star(seq(lit(","), ref("E")))))
+        else:
+            s_body = seq(label("p", opt(lit("-"))), label("e", ref("E")))
+        out.append(grammar("lrrnd%d_%d" % (seed, n), [rule("S", act(s_body, b_rec("s"))), e_rule,
+                                                      rule("N", act(plus(cls(ranges=[("0", "1")])), b_text()))], needs_lr=True, tags=["random"]))
     return out
